@@ -233,6 +233,56 @@ static Json runBurst(long n, bool heap, bool slow)
   return Json();
 }
 
+// a scheduled closure that itself schedules n further closures (the Internal backend then runs some of them nested
+// inside the parent, on the parent's thread, once that thread's pipe is full) and keeps checking that its own
+// captured state is still alive; closure 0 is the parent, 1..n are the children (exactly-once contract as for bursts)
+struct NestGuard
+{
+  std::shared_ptr<std::vector<int>> payload;
+  std::atomic<int> *live;
+  NestGuard(std::atomic<int> *l) : payload(new std::vector<int>(64, 7)), live(l) { (*live)++; }
+  NestGuard(const NestGuard &o) : payload(o.payload), live(o.live) { (*live)++; }
+  ~NestGuard() { (*live)--; payload.reset(); }
+  bool ok() const { return payload && payload->size() == 64 && (*payload)[63] == 7; }
+};
+
+static void runNested(long n, bool slow)
+{
+  std::shared_ptr<BurstCtx> cx(new BurstCtx((size_t)n + 1));
+  static std::atomic<int> liveGuards{0};
+  liveGuards = 0;
+  { Json j = Json::object(); j.set("ev", "Call").set("c", 1).set("n", (long long)n + 1).set("B", 1).set("blocks", false).set("parent", Json::array()); logJ(j); }
+  const long ep = g_epoch.load();
+  {
+    NestGuard guard(&liveGuards);
+    schedule([cx, n, slow, ep, guard]() {
+      if (ep != g_epoch.load()) return;
+      { Json j = Json::object(); j.set("ev", "ExecBegin").set("c", 1).set("b", 0).set("e", 1); logJ(j, ep); }
+      for (long k = 1; k <= n; ++k) {
+        schedule([cx, k, slow, ep]() {
+          if (ep != g_epoch.load()) return;
+          { Json j = Json::object(); j.set("ev", "ExecBegin").set("c", 1).set("b", (long long)k).set("e", (long long)k + 1); logJ(j, ep); }
+          if (slow && k % 64 == 0) spinUs(50);
+          cx->counts[(size_t)k]++;
+          { Json j = Json::object(); j.set("ev", "ExecEnd").set("c", 1).set("b", (long long)k).set("e", (long long)k + 1); logJ(j, ep); }
+          if (ep == g_epoch.load()) g_fnDone++;
+        });
+        if (!guard.ok()) {
+          Json j = Json::object(); j.set("ev", "Abort").set("why", "state captured by a running closure was destroyed while it runs"); logJ(j, ep);
+          break;
+        }
+      }
+      cx->counts[0]++;
+      { Json j = Json::object(); j.set("ev", "ExecEnd").set("c", 1).set("b", 0).set("e", 1); logJ(j, ep); }
+      if (ep == g_epoch.load()) g_fnDone++;
+    });
+  }
+  idleUntilDone((int)n + 1, 15000);
+  long once = 0;
+  for (auto &c : cx->counts) once += c.load() == 1 ? 1 : 0;
+  { Json j = Json::object(); j.set("ev", "Return").set("c", 1).set("cells", (long long)once); logJ(j); }
+}
+
 static Json collect(bool burst)
 {
   std::vector<Ev> all;
@@ -306,6 +356,8 @@ int main(int argc, char **argv)
     const std::string kind = j["kind"].str(), type = j["type"].str();
     if (kind == "burst") {
       runBurst(j["n"].num(), type == "vector", j["slow"].boolean());
+    } else if (kind == "nested") {
+      runNested(j["n"].num(), j["slow"].boolean());
     } else if (kind == "atask") {
       if (type == "int") dispatchATask<int>(j);
       else if (type == "string") dispatchATask<std::string>(j);
@@ -318,10 +370,10 @@ int main(int argc, char **argv)
       else if (type == "vector") dispatchAsync<std::vector<int>>(j);
       else dispatchAsync<Tracked>(j);
     }
-    if (kind != "burst") { Json e = Json::object(); e.set("ev", "End"); logJ(e); }
+    if (kind != "burst" && kind != "nested") { Json e = Json::object(); e.set("ev", "End"); logJ(e); }
     Json r = Json::object();
     r.set("id", j["id"]);
-    r.set("events", collect(kind == "burst"));
+    r.set("events", collect(kind == "burst" || kind == "nested"));
     of << r.dump() << "\n";
     of.flush();
   }
